@@ -17,7 +17,7 @@ Theorem C07_lazy_exact :
         map abs_ev (snd (ev p m tr)) = proj (tracing tr) (snd (sev p (abs m)))) \/
        (exists e, fst (ev p m tr) = Exn e /\ budget_exn e = true)) ->
     (forall p m, ev_results (snd (ev p m tr)) = []) ->
-    src_wf src -> pure_sev P sev -> valid_path P vp = true ->
+    src_wf src -> pure_sev P sev vp -> valid_path P vp = true ->
     exists k : nat, forall B fuel, (k < Pos.to_nat B)%nat ->
       (List.length (deval P sev vp (start src)) < fuel)%nat ->
       let d := drain P ev src vp tr fuel B init_state in
